@@ -22,7 +22,7 @@ Proof.
   unfold Sub. repeat split; try congruence; try lia; auto.
 Qed.
 
-Lemma Sub_amb s a : Sub s (set_amb s a).
+Lemma Sub_pending s (a : list string) : Sub s (set_pending s a).
 Proof. unfold Sub. cbn. repeat split; auto. Qed.
 
 Lemma aremove_sub {A} k (l : list (string * A)) j v :
@@ -33,7 +33,7 @@ Lemma Sub_head s id : Sub s (fst (rem_head s id)).
 Proof.
   unfold rem_head. destruct (st_kind s) eqn:Hk.
   - destruct (alookup id (st_facts s)) as [fact|] eqn:El; [|apply Sub_refl].
-    destruct (idx_drop_fields s id fact) as (F1 & F2 & F3 & F4 & F5 & F6 & F7).
+    destruct (idx_drop_fields s id fact) as (F1 & F2 & F3 & F4 & F5 & F6 & F7 & F8).
     pose proof (facts_idx_drop s id fact) as F0.
     unfold store_call.
     destruct (match st_fail (idx_drop s id fact) with
@@ -50,21 +50,29 @@ Proof.
 Qed.
 
 Lemma st_rem_Sub s id now : Sub s (fst (st_rem s id now)).
-Proof. apply (st_rem_R Sub Sub_refl Sub_trans Sub_amb Sub_head). Qed.
+Proof. apply (st_rem_R Sub Sub_refl Sub_trans Sub_pending Sub_head). Qed.
 Lemma st_rem_rec_Sub s id now : Sub s (fst (st_rem_rec s id now)).
-Proof. apply (st_rem_rec_R Sub Sub_refl Sub_trans Sub_amb Sub_head). Qed.
+Proof. apply (st_rem_rec_R Sub Sub_refl Sub_trans Sub_pending Sub_head). Qed.
 Lemma rem_fuel_Sub fuel s id now : Sub s (fst (rem_fuel fuel s id now)).
-Proof. apply (rem_fuel_R Sub Sub_refl Sub_trans Sub_amb Sub_head). Qed.
+Proof. apply (rem_fuel_R Sub Sub_refl Sub_trans Sub_pending Sub_head). Qed.
 Lemma st_search_Sub s p now : Sub s (fst (st_search s p now)).
-Proof. apply (st_search_R Sub Sub_refl Sub_trans Sub_amb Sub_head). Qed.
+Proof. apply (st_search_R Sub Sub_refl Sub_trans Sub_pending Sub_head). Qed.
 Lemma st_get_Sub s id now : Sub s (fst (st_get s id now)).
-Proof. apply (st_get_R Sub Sub_refl Sub_trans Sub_amb Sub_head). Qed.
+Proof. apply (st_get_R Sub Sub_refl Sub_trans Sub_pending Sub_head). Qed.
 Lemma st_Rem_Sub s id now : Sub s (fst (st_Rem s id now)).
-Proof. apply (st_Rem_R Sub Sub_refl Sub_trans Sub_amb Sub_head). Qed.
+Proof. apply (st_Rem_R Sub Sub_refl Sub_trans Sub_pending Sub_head). Qed.
 Lemma st_find_rules_Sub s ev now : Sub s (fst (st_find_rules s ev now)).
-Proof. apply (st_find_rules_R Sub Sub_refl Sub_trans Sub_amb Sub_head). Qed.
-Lemma expire_Sub s id fact now : Sub s (fst (fst (expire st_rem_rec s id fact now))).
-Proof. apply (expire_R Sub Sub_refl Sub_trans Sub_amb st_rem_rec st_rem_rec_Sub). Qed.
+Proof. apply (st_find_rules_R Sub Sub_refl Sub_trans Sub_pending Sub_head). Qed.
+Lemma expire_Sub s id fact now : Sub s (fst (expire s id fact now)).
+Proof. apply (expire_R Sub Sub_refl Sub_pending). Qed.
+Lemma search_state_Sub s p now : Sub s (fst (search_state s p now)).
+Proof. apply (search_state_R Sub Sub_refl Sub_trans Sub_pending). Qed.
+Lemma purge_Sub s now : Sub s (fst (purge s now)).
+Proof. apply (purge_R Sub Sub_refl Sub_trans Sub_pending Sub_head). Qed.
+Lemma get_body_Sub s id now : Sub s (fst (get_body s id now)).
+Proof. apply (get_body_R Sub Sub_refl Sub_pending). Qed.
+Lemma do_find_rules_Sub s ev now : Sub s (fst (do_find_rules s ev now)).
+Proof. apply (do_find_rules_R Sub Sub_refl Sub_trans Sub_pending Sub_head). Qed.
 
 Lemma Sub_no_expired s s' now : Sub s s' -> no_expired s now -> no_expired s' now.
 Proof.
@@ -85,14 +93,14 @@ Qed.
 
 (** * Well-formedness, both kinds *)
 
-Lemma wf_amb s a : st_wf s -> st_wf (set_amb s a).
+Lemma wf_pending s (a : list string) : st_wf s -> st_wf (set_pending s a).
 Proof. unfold st_wf. cbn. auto. Qed.
 
 Lemma wf_head s id : st_wf s -> st_wf (fst (rem_head s id)).
 Proof.
   intros (W1 & W2 & W3). unfold rem_head. destruct (st_kind s) eqn:Hk.
   - destruct (alookup id (st_facts s)) as [fact|] eqn:El; [|repeat split; assumption].
-    destruct (idx_drop_fields s id fact) as (F1 & F2 & F3 & F4 & F5 & F6 & F7).
+    destruct (idx_drop_fields s id fact) as (F1 & F2 & F3 & F4 & F5 & F6 & F7 & F8).
     pose proof (facts_idx_drop s id fact) as F0.
     unfold store_call.
     destruct (match st_fail (idx_drop s id fact) with
@@ -107,15 +115,17 @@ Proof.
 Qed.
 
 Lemma st_rem_wf s id now : st_wf s -> st_wf (fst (st_rem s id now)).
-Proof. apply (st_rem_inv st_wf wf_amb wf_head). Qed.
+Proof. apply (st_rem_inv st_wf wf_pending wf_head). Qed.
+Lemma purge_wf s now : st_wf s -> st_wf (fst (purge s now)).
+Proof. apply (purge_frame_inv st_wf wf_pending wf_head). Qed.
 Lemma st_search_wf s p now : st_wf s -> st_wf (fst (st_search s p now)).
-Proof. apply (st_search_inv st_wf wf_amb wf_head). Qed.
+Proof. apply (st_search_inv st_wf wf_pending wf_head). Qed.
 Lemma st_get_wf s id now : st_wf s -> st_wf (fst (st_get s id now)).
-Proof. apply (st_get_inv st_wf wf_amb wf_head). Qed.
+Proof. apply (st_get_inv st_wf wf_pending wf_head). Qed.
 Lemma st_Rem_wf s id now : st_wf s -> st_wf (fst (st_Rem s id now)).
-Proof. apply (st_Rem_inv st_wf wf_amb wf_head). Qed.
+Proof. apply (st_Rem_inv st_wf wf_pending wf_head). Qed.
 Lemma st_find_rules_wf s ev now : st_wf s -> st_wf (fst (st_find_rules s ev now)).
-Proof. apply (st_find_rules_inv st_wf wf_amb wf_head). Qed.
+Proof. apply (st_find_rules_inv st_wf wf_pending wf_head). Qed.
 
 (** * The effect of add *)
 
